@@ -508,14 +508,22 @@ WORLDS = {
     "elect5": dict(n=5, timeouts=2, max_term=2, max_msgs=14),
     # a granted vote is still in flight while elections go on: n0 is candidate of term 1, n1 has granted its
     # vote (answer in flight), n2 never got the request
+    "late-vote0": dict(prefix=[("timeout", "n0"), ("msg", "RequestVote", "n0", "n1"),
+                               ("dropmsg", "RequestVote", "n0", "n2")], timeouts=3, max_term=2, max_msgs=8),
+    # same, one step later: n0 has timed out again (candidate of term 2, its new requests in flight as well)
     "late-vote": dict(prefix=[("timeout", "n0"), ("msg", "RequestVote", "n0", "n1"),
-                              ("dropmsg", "RequestVote", "n0", "n2")], timeouts=2, max_term=2, max_msgs=6),
+                              ("dropmsg", "RequestVote", "n0", "n2"), ("timeout", "n0")],
+                      timeouts=1, max_term=2, max_msgs=6),
     # replication under a stable leader n0 (term 1, everybody has acknowledged its first heartbeat)
     "repl": dict(prefix=ELECT_N0, submits=2, hbs=2, submit_to="any", max_msgs=6),
     "repl-drop": dict(prefix=ELECT_N0, submits=2, hbs=3, drops=2, max_msgs=4),
     # leader change from "n0 leads term 1 and holds one entry nobody else has"
     "change": dict(prefix=ELECT_N0 + [("submit", "n0")], timeouts=2, max_term=3, submits=1, hbs=1, max_msgs=6),
     "change-hb2": dict(prefix=ELECT_N0 + [("submit", "n0")], timeouts=2, max_term=3, submits=1, hbs=2, max_msgs=5),
+    # one step later: n1 has just won term 2 with n2's vote (its first AppendEntries and its RequestVote to n0 in flight)
+    "change2": dict(prefix=ELECT_N0 + [("submit", "n0"), ("timeout", "n1"), ("msg", "RequestVote", "n1", "n2"),
+                                       ("msg", "VoteResponse", "n2", "n1")],
+                    timeouts=1, max_term=3, submits=1, hbs=1, max_msgs=5),
     # same, but the entry reached one follower before the leader changes
     "change-half": dict(prefix=ELECT_N0 + [("submit", "n0"), ("hb", "n0"), ("msg", "AppendEntries", "n0", "n1"),
                                            ("msg", "AppendEntriesResponse", "n1", "n0"),
@@ -866,12 +874,12 @@ def live_jobs(k, bound):
 # ---------------------------------------------------------------------------
 # (driver name, world, overrides, max_states) — biggest first (they start first in the pool)
 QUICK_WORLDS = [
-    ("change-t2", "change", dict(timeouts=2, max_term=3, hbs=0, max_msgs=4), 300_000),
+    ("change2", "change2", None, 300_000),
     ("change-t1", "change", dict(timeouts=1, max_term=2, hbs=1), 300_000),
     ("fig8", "fig8", dict(max_msgs=4), 300_000),
     ("stale-resp5", "stale-resp5", dict(max_msgs=5), 300_000),
     ("behind", "behind", dict(hbs=0, max_msgs=4), 300_000),
-    ("late-vote", "late-vote", dict(max_msgs=5), 300_000),
+    ("late-vote", "late-vote", None, 300_000),
     ("elect-t2", "elect", dict(timeouts=2, max_msgs=8), 300_000),
     ("elect-t3", "elect", dict(timeouts=3, max_msgs=4), 300_000),
     ("free", "free", dict(max_msgs=3), 300_000),
@@ -880,22 +888,25 @@ QUICK_WORLDS = [
     ("repl-drop", "repl-drop", dict(hbs=2, drops=1, max_msgs=3), 300_000),
 ]
 THOROUGH_WORLDS = [
-    ("elect", "elect", None, 600_000),
-    ("elect-4t3", "elect-t3", None, 600_000),
-    ("elect5", "elect5", None, 600_000),
-    ("late-vote", "late-vote", dict(timeouts=3, max_msgs=8), 600_000),
-    ("change-t2-hb1", "change", dict(timeouts=2, max_term=3, hbs=1, max_msgs=4), 600_000),
-    ("change-t2", "change", dict(timeouts=2, max_term=3, hbs=0, max_msgs=6), 600_000),
-    ("change-t1", "change", dict(timeouts=1, max_term=2, hbs=2), 600_000),
-    ("change-half", "change-half", dict(max_msgs=4), 600_000),
-    ("fig8", "fig8", dict(hbs=1), 600_000),
     ("stale-resp5", "stale-resp5", None, 600_000),
-    ("behind", "behind", None, 600_000),
-    ("crash", "crash-repl", None, 600_000),
-    ("crash-change", "crash-change", None, 600_000),
-    ("repl-drop", "repl-drop", None, 600_000),
-    ("free", "free", None, 600_000),
+    ("elect5", "elect5", dict(max_msgs=8), 120_000),
+    ("late-vote0", "late-vote0", None, 600_000),
+    ("late-vote", "late-vote", None, 600_000),
+    ("change2", "change2", dict(hbs=2, max_msgs=6), 600_000),
+    ("elect4", "elect", dict(n=4, timeouts=2, max_msgs=9), 600_000),
+    ("elect", "elect", None, 600_000),
     ("repl", "repl", dict(submits=3, hbs=3), 600_000),
+    ("crash-change", "crash-change", dict(max_msgs=3), 600_000),
+    ("elect-4t3", "elect-t3", dict(max_msgs=5), 250_000),
+    ("behind", "behind", dict(hbs=1, max_msgs=4), 600_000),
+    ("change-t1", "change", dict(timeouts=1, max_term=2, hbs=2, max_msgs=4), 600_000),
+    ("crash", "crash-repl", dict(hbs=1, max_msgs=4), 600_000),
+    ("fig8", "fig8", dict(hbs=0, max_msgs=6), 600_000),
+    ("change-t2", "change", dict(timeouts=2, max_term=3, hbs=0, max_msgs=6), 600_000),
+    ("repl-drop", "repl-drop", None, 600_000),
+    ("change-half", "change-half", dict(max_msgs=3), 600_000),
+    ("change-t2-hb1", "change", dict(timeouts=2, max_term=3, hbs=1, max_msgs=3), 600_000),
+    ("free", "free", dict(max_msgs=4), 600_000),
 ]
 
 
@@ -918,7 +929,7 @@ def main(tier, seed, only=None):
                            "`_crashed` flag CrashNode sets (Event.invoke drops events), restart clears it and "
                            "calls start() again",
                            "messages are not duplicated (the statement names delay, reordering, loss)",
-                           "cluster size 3 (5 only in the thorough election world)",
+                           "cluster size 3; 5 in the stale-resp5 world (both tiers) and 4 / 5 in thorough election worlds",
                            "E2 horizon: 4 heartbeat intervals after the last submit; premise checked at t_est: "
                            "exactly one leader, all other nodes followers of it in its term"])
     t0 = time.time()
